@@ -3,7 +3,8 @@ C40 — hand model of `DiffractionPatterns._com / center_of_mass / coordinates` 
 generated summands of `Gen/Com.lean`.  The pattern is an `nx × ny` table of exact rationals; coordinates are lists.
 Core Lean only.
 
-  `_com`            → `comX`, `comY`  (the two first moments; summands `array * x[:, None]`, `array * y[None]` generated)
+  `_com`            → `momentX/Y` (first moments; summands generated), `total`, `comX`, `comY` (moment / guarded total;
+                       division and zero guard generated)
   `coordinates`     → `coords` (`LinearAxis.coordinates` = half-open linspace from the lowest frequency; un-shifted
                        patterns: `ifftshift`), `angular_coordinates` → `FftGeom.angularCoords` (C14)
   `center_of_mass`  → `centerOfMass` (units "1/Å" | "mrad", ValueError otherwise)
@@ -15,15 +16,24 @@ open AbtemVerif.Py AbtemVerif.Np AbtemVerif.Gen.Com AbtemVerif.FftGeom
 
 def sumRange (n : Nat) (f : Nat → Rat) : Rat := ((List.range n).map f).sum
 
-/-- `(array * x[:, None]).sum(axis=(-2, -1))` -/
-def comX (nx ny : Nat) (I : Nat → Nat → Rat) (x : Nat → Rat) : Rat :=
+/-- first moment `(array * x[:, None]).sum(axis=(-2, -1))` -/
+def momentX (nx ny : Nat) (I : Nat → Nat → Rat) (x : Nat → Rat) : Rat :=
   sumRange nx fun i => sumRange ny fun j => comXTerm (I i j) (x i)
 
-/-- `(array * y[None]).sum(axis=(-2, -1))` -/
-def comY (nx ny : Nat) (I : Nat → Nat → Rat) (y : Nat → Rat) : Rat :=
+/-- first moment `(array * y[None]).sum(axis=(-2, -1))` -/
+def momentY (nx ny : Nat) (I : Nat → Nat → Rat) (y : Nat → Rat) : Rat :=
   sumRange nx fun i => sumRange ny fun j => comYTerm (I i j) (y j)
 
+/-- `array.sum(axis=(-2, -1))` -/
 def total (nx ny : Nat) (I : Nat → Nat → Rat) : Rat := sumRange nx fun i => sumRange ny fun j => I i j
+
+/-- `com_x`: first moment divided by the total intensity (`where(total == 0, 1, total)`: empty patterns give 0) -/
+def comX (nx ny : Nat) (I : Nat → Nat → Rat) (x : Nat → Rat) : Rat :=
+  comXDiv (momentX nx ny I x) (comTotalGuard (total nx ny I))
+
+/-- `com_y` -/
+def comY (nx ny : Nat) (I : Nat → Nat → Rat) (y : Nat → Rat) : Rat :=
+  comYDiv (momentY nx ny I y) (comTotalGuard (total nx ny I))
 
 /-- `DiffractionPatterns.coordinates` for one axis [1/Å]: `linspace(lo, lo + s·n, n, endpoint=False)`, in FFT storage
 order for un-shifted patterns -/
